@@ -260,6 +260,9 @@ func (f *SecretFactory) New(b []byte) (securememory.Secret, error) {
 			err = errors.Wrap(err, err2.Error())
 		}
 
+		// this secret was never handed out nor counted: it must not be closed again by the finalizer
+		runtime.SetFinalizer(secret.dummy, nil)
+
 		return nil, err
 	}
 
@@ -293,6 +296,9 @@ func (f *SecretFactory) createRandom(size int, readFunc func(b []byte) (n int, e
 			err = errors.Wrap(err, err2.Error())
 		}
 
+		// this secret was never handed out nor counted: it must not be closed again by the finalizer
+		runtime.SetFinalizer(s.dummy, nil)
+
 		return nil, err
 	}
 
@@ -310,6 +316,9 @@ func (f *SecretFactory) createRandom(size int, readFunc func(b []byte) (n int, e
 		if err2 := f.memcall().Free(s.bytes); err2 != nil {
 			err = errors.Wrap(err, err2.Error())
 		}
+
+		// this secret was never handed out nor counted: it must not be closed again by the finalizer
+		runtime.SetFinalizer(s.dummy, nil)
 
 		return nil, err
 	}
